@@ -416,11 +416,20 @@ def playback(crate, harness, timeout=900):
     env = dict(os.environ, CARGO_NET_OFFLINE="true", CARGO_TARGET_DIR=os.path.join(crate, "target"))
     cmd = ["cargo", "kani"] + KANI_FLAGS + ["-Z", "concrete-playback", "--concrete-playback=print",
                                             "--exact", "--harness", harness, "--output-format", "terse"]
+    # run under the RSS watchdog: trace generation (cbmc --trace) has been seen at 26 GB for a harness that verifies in 2 GB
+    p = subprocess.Popen(cmd, cwd=crate, env=env, stdout=subprocess.PIPE, stderr=subprocess.STDOUT, text=True, start_new_session=True)
+    wd = _Watchdog(p.pid)
+    wd.start()
     try:
-        p = subprocess.run(cmd, cwd=crate, env=env, capture_output=True, text=True, timeout=timeout)
+        out, _ = p.communicate(timeout=timeout)
     except subprocess.TimeoutExpired:
+        os.killpg(p.pid, signal.SIGKILL)
+        p.communicate()
+        wd.stop = True
         return dict(tests=[], output="playback generation timed out")
-    out = p.stdout + p.stderr
+    wd.stop = True
+    if wd.killed:
+        return dict(tests=[], output="playback generation stopped: cbmc exceeded the memory limit while building the trace")
     tests = []
     for m in re.finditer(r"```\s*\n(/// Test generated for harness.*?)```", out, re.S):
         src = m.group(1)
